@@ -122,6 +122,8 @@ class Check:
             if o.status != "info":
                 counts[o.rule] = counts.get(o.rule, 0) + 1
         errors: List[str] = []
+        if getattr(self, "aborted", None):
+            errors.append(f"the analysis stopped before it was complete: {self.aborted}")
         for rid, mn in self.min_instances.items():
             if counts.get(rid, 0) < mn:
                 errors.append(
